@@ -172,6 +172,9 @@ func cmdCheck(args []string) int {
 				continue
 			}
 		}
+		if only := os.Getenv("VERIF_ONLY_HARNESS"); only != "" && only != h.Func { // debugging aid
+			continue
+		}
 		p := prog.ImportedPackage(repoMod + h.Pkg)
 		if p == nil {
 			inconclusive = append(inconclusive, "package not loaded: "+h.Pkg)
@@ -199,6 +202,7 @@ func cmdCheck(args []string) int {
 			timeout = 30000
 		}
 		opt := runOpts{tier: tier, unwind: unwind, maxSteps: 200_000_000, seed: seed, solver: "z3", timeoutMS: timeout, workers: workers, budgetS: budget}
+		opt.witnessAll = os.Getenv("VERIF_WITNESS_ALL") != "" // debugging aid: replay every completed path natively
 		if h.Solver != "" {
 			opt.solver = h.Solver
 		}
@@ -544,7 +548,11 @@ func (rp *replayer) validateWitnesses(pkg string, ws []*candidate) (ok, bad int,
 	}
 	target := wdir
 	for a := 0; a < attempts; a++ {
-		out = runGoTest(pkg, ovPath, target, 300)
+		tmo := 300
+		if os.Getenv("VERIF_WITNESS_ALL") != "" {
+			tmo = 3600
+		}
+		out = runGoTest(pkg, ovPath, target, tmo)
 		sc := bufio.NewScanner(strings.NewReader(out))
 		sc.Buffer(make([]byte, 1<<20), 1<<26)
 		for sc.Scan() {
@@ -592,7 +600,7 @@ func (rp *replayer) validateWitnesses(pkg string, ws []*candidate) (ok, bad int,
 			}
 		}
 	}
-	if bad == 0 {
+	if bad == 0 && os.Getenv("VERIF_KEEP_WITNESS") == "" {
 		os.RemoveAll(dir)
 	}
 	return
